@@ -1,29 +1,38 @@
 #!/bin/sh
-# usage: tools/regress.sh [out.md]  -- run every hand-made mutant and every seeded change against its
-# property's quick check in a scratch copy of /repo/edzed; expect exit 1 (development aid, ~20 min)
+# usage: [JOBS=4] tools/regress.sh [out.md]  -- run every hand-made mutant and every seeded change against
+# its property's quick check in a scratch copy of /repo/edzed; expect exit 1 (development aid)
 cd "$(dirname "$0")/.." || exit 2
 OUT=${1:-/tmp/edzverif-regress.md}
-echo "| change | property | check exit | first signature |" > $OUT
-echo "|---|---|---|---|" >> $OUT
-run() { # patch id label
-  P=$(realpath "$1"); D=$(mktemp -d /tmp/edzmut-XXXXXX)
-  cp -r /repo/edzed "$D/edzed"
-  if (cd "$D" && patch -p1 -s --fuzz=3 < "$P" >/dev/null 2>&1); then
-    out=$(VERIF_REPO="$D" bin/check "$2" quick 2>&1); rc=$?
-    sig=$(echo "$out" | grep -m1 "signature:" | sed 's/ *signature: //' | cut -c1-90)
-  else rc="patch-failed"; sig=""; fi
-  rm -rf "$D"
-  echo "| $3 | $2 | $rc | $sig |" >> $OUT
-  echo "$3 $2 rc=$rc $sig"
-}
+T=$(mktemp -d /tmp/edzreg-XXXXXX)
+n=0
+job() { n=$((n+1)); printf '%03d\t%s\t%s\t%s\n' $n "$1" "$2" "$3" >> $T/jobs; }
 for f in mutants/*.diff; do
   b=$(basename $f .diff); id=$(echo $b | cut -c1-3 | tr c C)
   case $b in *revert_fix*) label="$b (reverts a fix)";; *) label="$b";; esac
-  run $f $id "mutants/$label"
+  job $f $id "mutants/$label"
 done
 for d in seeded/C???; do
   [ -f $d/patch.diff ] || continue
-  id=$(basename $d | cut -c1-3)
-  run $d/patch.diff $id "seeded/$(basename $d)"
+  job $d/patch.diff $(basename $d | cut -c1-3) "seeded/$(basename $d)"
 done
+cat > $T/run.sh <<'EOS'
+#!/bin/sh
+# args: tmpdir line
+T=$1; IFS='	' read -r N PATCH ID LABEL <<EOL
+$2
+EOL
+P=$(realpath "$PATCH"); D=$(mktemp -d /tmp/edzmut-XXXXXX)
+cp -r /repo/edzed "$D/edzed"
+if (cd "$D" && patch -p1 -s --fuzz=3 < "$P" >/dev/null 2>&1); then
+  out=$(VERIF_REPO="$D" bin/check "$ID" quick 2>&1); rc=$?
+  sig=$(echo "$out" | grep -m1 "signature:" | sed 's/ *signature: //' | cut -c1-90)
+else rc="patch-failed"; sig=""; fi
+rm -rf "$D"
+echo "| $LABEL | $ID | $rc | $sig |" > $T/$N.row
+echo "$LABEL $ID rc=$rc $sig"
+EOS
+chmod +x $T/run.sh
+tr '\n' '\0' < $T/jobs | xargs -0 -n1 -P ${JOBS:-4} $T/run.sh $T
+{ echo "| change | property | check exit | first signature |"; echo "|---|---|---|---|"; cat $T/*.row; } > $OUT
+rm -rf $T
 echo done
